@@ -3,7 +3,10 @@ append is rejected before any byte is written; row count updated in place.
 
 Decided structurally (DESIGN 5/C03): R03.1 mode selection, R03.2 compatibility
 check dominance and mismatch->raise, R03.3 first-write vs append state, R03.4
-in-place SIZE update, R03.5 append position, R03.6 overwrite.
+in-place SIZE update, R03.5 append position, R03.6 overwrite; R03.1e the existence
+test of the append fallback looks at the path that is opened, R03.2f a text append is
+accepted only after kind and item size of every field compared equal, R03.8 the
+records Records::Write emits and the rows Python counts are the same measure of the chunk.
 
 The rules are stated over *paths* (python: a small symbolic executor that follows
 calls into helpers of the same class / module and substitutes temporaries; C++:
@@ -43,7 +46,7 @@ BYTE_WRITERS = ("write_header_and_update_offset", "update_row_count", "Write")
 
 # rules that keep their verdict however the code is laid out (decided by term equality, effect analysis or dominance over
 # resolved calls); every other rule of this check is a template rule (vcheck.core.Check.obt)
-SEMANTIC = ('R03.1a', 'R03.1b', 'R03.1c', 'R03.2b', 'R03.2c', 'R03.2d', 'R03.3d', 'R03.4c', 'R03.5')
+SEMANTIC = ('R03.1a', 'R03.1b', 'R03.1c', 'R03.1e', 'R03.2b', 'R03.2c', 'R03.2d', 'R03.2f', 'R03.3d', 'R03.4c', 'R03.5', 'R03.8')
 
 
 def run(chk):
@@ -75,12 +78,14 @@ def run(chk):
 
     r03_1(chk, repo, sf_write, SFile_open, Rec_open, cfun)
     r03_2(chk, repo, SFile_write)
-    r03_3(chk, repo)
+    measures = []       # (who, expression, chunk parameter, where): what the Python side adds to / records as the row count
+    r03_3(chk, repo, measures)
     ceff = _CEff(cfun)
     r03_4(chk, repo, cfun, ceff)
     r03_5(chk, cfun, ceff)
     r03_6(chk, repo, sf_write, cfun)
-    r03_7(chk, repo, Rec_write)
+    r03_7(chk, repo, Rec_write, measures)
+    r03_8(chk, cfun, ceff, measures)
 
 
 # ---------------------------------------------------------------------------
@@ -660,6 +665,45 @@ def _sum_terms(e):
     return [norm(e)]
 
 
+_EXIST_TESTS = ("exists", "isfile", "lexists", "is_file")
+_PATH_SAME_FILE = ("abspath", "realpath", "normpath", "normcase", "fspath", "str", "Path", "PurePath", "resolve", "absolute")
+_PATH_EXPAND = ("expanduser", "expandvars")
+
+
+def _path_sig(e):
+    """(root term, expansions applied) of a path expression: wrappers that designate the same file are dropped, `~` and
+    `$VAR` expansion (which designate another file when the name contains them) are kept as a set"""
+    ex = set()
+    while isinstance(e, ast.Call) and not e.keywords:
+        nm = call_name(e)
+        if len(e.args) == 1 and nm in _PATH_SAME_FILE + _PATH_EXPAND:
+            nxt = e.args[0]
+        elif not e.args and isinstance(e.func, ast.Attribute) and nm in _PATH_SAME_FILE + _PATH_EXPAND:
+            nxt = e.func.value      # pathlib: Path(p).expanduser()
+        else:
+            break
+        if nm in _PATH_EXPAND:
+            ex.add(nm)
+        e = nxt
+    return norm(e), frozenset(ex)
+
+
+def _same_path(a, b):
+    """True: the two expressions designate the same file for every file name; False: same root name but different
+    `~` / `$VAR` expansion; None: not recognised"""
+    if norm(a) == norm(b):
+        return True
+    (ra, xa), (rb, xb) = _path_sig(a), _path_sig(b)
+    if ra != rb:
+        return None
+    return xa == xb
+
+
+def _path_words(e):
+    r, ex = _path_sig(e)
+    return "`%s` %s" % (r, ("after " + "+".join(sorted(ex))) if ex else "as given (no ~ / $VAR expansion)")
+
+
 # ---------------------------------------------------------------------------
 def r03_1(chk, repo, sf_write, SFile_open, Rec_open, cfun):
     """mode selection for append"""
@@ -806,6 +850,40 @@ def r03_1(chk, repo, sf_write, SFile_open, Rec_open, cfun):
                        "%s:%s" % (SFile_open.where().rsplit(":", 1)[0], e["line"]),
                        "mode %r reaches the record-file constructor %s a dtype; the C++ constructor %s one for it"
                        % (m.value, "with" if has_dtype else "without", "demands" if needs else "does not demand"))
+    # (e) the path whose existence decides between "append to what is there" and "create" is the path the record file is
+    # opened on: the two are the same term over the symbols SFile.open sees on entry (same root, same ~ / $VAR expansions).
+    # A test on another spelling of the name answers for another file: an existing file is then taken for missing and
+    # re-created (truncated), or a missing one is opened for update.
+    verdict, nseen, detail, line = True, 0, "", None
+    for st in opaths:
+        tested = []
+        for _, _, x, w in st.facts:
+            for c in (ast.walk(x) if isinstance(x, ast.AST) else ()):
+                if isinstance(c, ast.Call) and call_name(c) in _EXIST_TESTS:
+                    p = c.args[0] if c.args else (c.func.value if isinstance(c.func, ast.Attribute) else None)
+                    if p is not None and not (isinstance(p, ast.Attribute) and norm(p) in ("os.path", "path")):
+                        tested.append((p, c, w))
+        opened = []
+        for e in _calls(st, "Recfile"):
+            p = e["args"][0] if e["args"] else next((e["kw"][k] for k in ("filename", "fname", "path") if k in e["kw"]), None)
+            if p is not None:
+                opened.append(p)
+        for p, c, w in tested:
+            for o in opened:
+                nseen += 1
+                r = _same_path(p, o)
+                if r is False:
+                    verdict = False
+                    line = w[1]
+                    detail = "`%s` tests %s but the record file is opened on %s" % (norm(c), _path_words(p), _path_words(o))
+                elif r is None and verdict is True:
+                    verdict = None
+                    detail = "`%s` vs opened `%s`: relation of the two paths not recognised" % (norm(c), norm(o))
+    if nseen:
+        chk.ob("R03.1e", "esutil.sfile.SFile.open::existence-test-on-opened-path", verdict,
+               "%s:%s" % (SFile_open.where().rsplit(":", 1)[0], line) if line else SFile_open.where(),
+               "the existence test that selects append-vs-create looks at the very path the record file is opened on "
+               "(%d test/open pair(s) on the paths of SFile.open)%s" % (nseen, (": " + detail) if detail else ""))
     # (d) Recfile.open refuses r+ on a missing file (so the fallback above is the only way)
     rcfg = cfg_of(Rec_open)
     guard = False
@@ -941,8 +1019,50 @@ def r03_2(chk, repo, SFile_write):
         want = {"field count": "count", "field name": "name", "field type sans byte order": "type", "field shape": "shape"}
         for label, cls in want.items():
             hit = cls in classes["text"] or cls in classes["common"]
+            if not hit and cls == "type":
+                # any other spelling that settles kind and item size of a field (numpy.dtype(t).newbyteorder('='), the whole field ...)
+                hit = any(_type_cover(x) == "full" for _, _, st in paths if _arm(st) != "binary" for k, _, x, _ in st.facts if k[0] == "eq")
             chk.ob("R03.2e", "%s::text-arm-compares::%s" % (callee.qualname, label), hit, callee.where(),
                    "text appends compare %s: %s" % (label, "found" if hit else "NO SUCH COMPARISON"))
+        # text arm, stated over paths: a chunk is accepted (normal return, file already has rows, fields looked at) only after
+        # the type of each field -- kind AND item size, i.e. the whole type string but for its byte-order character -- has
+        # compared equal with the stored one.  A comparison of a part of the type string (one character, the kind, the
+        # size alone) lets fields of another width through: the appended bytes no longer parse as the stored dtype.
+        tpaths = []
+        for kind, _, st in paths:
+            if kind != "return" or _arm(st) == "binary" or _fact(st, _is_none_of("self._dtype")) is True:
+                continue
+            cov = [(_type_cover(x), x, w) for k, v, x, w in st.facts if k[0] == "eq" and v and isinstance(x, ast.Compare)]
+            mixed = [(c, x, w) for c, x, w in cov if c is not None]
+            if mixed:
+                tpaths.append((st, mixed, any(re.search(r"__i\d+__", norm(x)) for _, x, _ in mixed)))
+        if any(lp for _, _, lp in tpaths):
+            tpaths = [t for t in tpaths if t[2]]      # the ways through the per-field loop body
+        verdict, why, line = (True, "", None) if tpaths else (None, "no accepting path of a text append that compares the two dtypes was recognised", None)
+        for st, mixed, _ in tpaths:
+            covs = [c for c, _, _ in mixed]
+            parts = {c for c in covs if c.startswith("part:")}
+            if "full" in covs or {"part:kind", "part:itemsize"} <= parts:
+                continue
+            if "unknown" in covs:
+                if verdict is True:
+                    verdict, why = None, "a comparison of the two dtypes that is not recognised: `%s`" % next(
+                        _unindex(norm(x)) for c, x, _ in mixed if c == "unknown")
+                continue
+            verdict = False
+            if parts:
+                c, x, w = next(t for t in mixed if t[0].startswith("part:"))
+                why = "accepted after `%s` compared equal, which covers only %s of each field's type" % (_unindex(norm(x)), c[5:])
+                line = w[1]
+            else:
+                why = "accepted after comparing only %s: the field types are never compared" % sorted(
+                    {_cmp_class(x) or "?" for _, x, _ in mixed})
+            break
+        chk.ob("R03.2f", "%s::text-accepts-only-equal-field-types" % callee.qualname, verdict,
+               "%s:%s" % (callee.where().rsplit(":", 1)[0], line) if line else callee.where(),
+               "a text append is accepted only after kind and item size of every field (the type string without its "
+               "byte-order character) compared equal with the stored dtype, on each of the %d accepting path(s)%s"
+               % (len(tpaths), (": " + why) if why else ""))
 
 
 def _is_compat_checker(repo, fi, direct=False):
@@ -1010,12 +1130,127 @@ def _cmp_class(x):
     return _CMP_CLASSES.get(ts, "other")
 
 
+def _cmp_sides(x):
+    """(stored-dtype side, new-rows side) of an ==/!= with `self._dtype` / `data.dtype` written X, or None"""
+    if not (isinstance(x, ast.Compare) and len(x.ops) == 1 and isinstance(x.ops[0], (ast.Eq, ast.NotEq))):
+        return None
+    sides = {}
+    for e in (x.left, x.comparators[0]):
+        names = {norm(y) for y in ast.walk(e) if isinstance(y, (ast.Attribute, ast.Name))}
+        s = "self._dtype" in names
+        d = "data.dtype" in names or "data" in names
+        if s == d:
+            return None
+        sides["S" if s else "D"] = _unindex(norm(e))
+    if len(sides) != 2:
+        return None
+    return sides["S"].replace("self._dtype", "X"), sides["D"].replace("data.dtype", "X")
+
+
+_FIELD_DTYPE = re.compile(r"^(X\[(i|X\.names\[i\])\]|X\.fields\[(X\.names\[i\])\]\[0\])$")
+
+
+def _type_part(ts):
+    """what a term over the dtype X says about the type of field i: 'full' (kind and item size), 'part:<what>' (a proper part
+    of the type: one character of the type string, the kind, the item size ...), 'unknown'"""
+    try:
+        e = ast.parse(ts, mode="eval").body
+    except SyntaxError:
+        return "unknown"
+    ops = []
+    while True:
+        t = norm(e)
+        if t == "X.descr[i][1]":
+            base = "str"
+            break
+        if _FIELD_DTYPE.match(t):
+            base = "dtype"
+            break
+        if isinstance(e, ast.Subscript):
+            ops.append(("sub", e.slice))
+            e = e.value
+        elif isinstance(e, ast.Attribute):
+            ops.append(("attr", e.attr))
+            e = e.value
+        elif isinstance(e, ast.Call) and call_name(e) == "dtype" and len(e.args) == 1 and not e.keywords:
+            ops.append(("todtype", None))       # numpy.dtype(<type string>)
+            e = e.args[0]
+        elif isinstance(e, ast.Call) and isinstance(e.func, ast.Attribute) and not e.keywords:
+            ops.append(("call", e.func.attr))
+            e = e.func.value
+        else:
+            return "unknown"
+    ops.reverse()
+    if base == "str" and ops and ops[0][0] == "todtype":
+        base, ops = "dtype", ops[1:]
+    if base == "dtype":
+        if not ops:
+            return "full"
+        k, a = ops[0]
+        if k == "attr" and a in ("kind", "char", "type", "num"):
+            return "part:kind" if len(ops) == 1 else "unknown"
+        if k == "attr" and a in ("itemsize", "alignment"):
+            return "part:itemsize" if len(ops) == 1 and a == "itemsize" else "unknown"
+        if k == "attr" and a == "str":
+            ops = ops[1:]
+        elif k == "call" and a == "newbyteorder" and len(ops) == 1:
+            return "full"
+        else:
+            return "unknown"
+    # ops applied to the type string '<f8', '|S5', '<i4' ...: [0] byte order, [1] kind, [2:] item size
+    if not ops:
+        return "full"
+    if len(ops) > 1 or ops[0][0] != "sub":
+        return "unknown"
+    s = ops[0][1]
+    if isinstance(s, ast.Slice):
+        def lit(v):
+            try:
+                return None if v is None else ast.literal_eval(v)
+            except (ValueError, TypeError, SyntaxError):
+                return v
+        lo, hi, step = lit(s.lower), lit(s.upper), lit(s.step)
+        if step not in (None, 1) or not all(v is None or isinstance(v, int) for v in (lo, hi)):
+            return "unknown"
+        if hi is None and lo in (None, 0, 1):
+            return "full"
+        return "part:characters [%s:%s] of the type string" % ("" if lo is None else lo, "" if hi is None else hi)
+    try:
+        i = ast.literal_eval(s)
+    except (ValueError, TypeError, SyntaxError):
+        i = None
+    if isinstance(i, int):
+        return "part:%s" % ("kind" if i == 1 else "character [%d] of the type string" % i)
+    return "unknown"
+
+
+def _type_cover(x):
+    """for an equality between something of the stored dtype and something of the dtype of the new rows: how much of the field
+    types it covers -- 'full', 'part:...', 'none' (it is about count / names / shapes), 'unknown'; None for other tests"""
+    if not (isinstance(x, ast.Compare) and len(x.ops) == 1 and isinstance(x.ops[0], (ast.Eq, ast.NotEq))):
+        return None
+    names = {norm(y) for y in ast.walk(x) if isinstance(y, (ast.Attribute, ast.Name))}
+    if not ("self._dtype" in names and ("data.dtype" in names or "data" in names)):
+        return None
+    cls = _cmp_class(x)
+    if cls is None:
+        return "unknown"
+    if cls in ("exact", "descr", "field", "type"):
+        return "full"
+    if cls in ("count", "name", "shape", "dim"):
+        return "none"
+    sides = _cmp_sides(x)
+    if sides is None or sides[0] != sides[1]:
+        return "unknown"
+    return _type_part(sides[0])
+
+
 # ---------------------------------------------------------------------------
 def _text_in(v, texts):
     return v is not None and norm(v) in texts
 
 
-def r03_3(chk, repo):
+def r03_3(chk, repo, measures):
     """first write vs append: decided on the paths of _write_header (new helpers followed, the calls the rule speaks about
     -- _make_header, _update_size, _get_size_string -- kept as events) and of _update_size"""
     wh = repo.func("esutil.sfile.SFile._write_header")
@@ -1044,8 +1279,18 @@ def r03_3(chk, repo):
         chk.ob("R03.3b", "esutil.sfile.SFile._write_header::append-updates-count", ok, wh.where(),
                "on the append arm the stored row count is increased by the chunk size (data.size): %d append path(s), _update_size args %s"
                % (len(app), sorted({norm(e["args"][0]) for st in app for e in _calls(st, "_update_size") if e["args"]})))
+        for st in app:
+            for e in _calls(st, "_update_size"):
+                if e["args"]:
+                    measures.append(("SFile append (_update_size)", e["args"][0], "data", wh.where()))
         # first-write arm: size string and _size come from data.size; header retained from the user's dict
         fw = [st for st, _ in hw]
+        for st in fw:
+            if "self._size" in st.heap:
+                measures.append(("SFile first write (self._size)", st.heap["self._size"], "data", wh.where()))
+            for e in _calls(st, "_get_size_string"):
+                if e["args"]:
+                    measures.append(("SFile first write (SIZE line)", e["args"][0], "data", wh.where()))
         sizes = sorted({norm(st.heap["self._size"]) if "self._size" in st.heap else "<not set>" for st in fw})
         chk.ob("R03.3c", "esutil.sfile.SFile._write_header::first-size", bool(fw) and all(s in CHUNK[:2] for s in sizes),
                wh.where(), "first write records _size = data.size (found %s)" % sizes)
@@ -1480,6 +1725,197 @@ def r03_5(chk, cfun, ceff):
            "SWIG-exposed methods that can reach an output primitive: %s (allowed: %s)" % (sorted(public_writers), sorted(entries)))
 
 
+# ---------------------------------------------------------------------------
+# R03.8: the number of records Records::Write puts into the file and the number the Python side adds to the stored row
+# count are the same measure of the chunk (its total element count, or its leading dimension -- but the same one on both
+# sides): otherwise the SIZE line and the rows present drift apart for every chunk on which the two measures differ.
+_npy_api = {}
+
+
+def _npy_api_names():
+    """{index: name} of numpy's C-API function table (the accessor macros reach clang expanded: `*PyArray_API[59](obj)`)"""
+    if "v" not in _npy_api:
+        tab = {}
+        try:
+            inc = cfront._py_includes()[0]
+            txt = open(os.path.join(inc, "numpy", "__multiarray_api.h"), encoding="utf-8", errors="replace").read()
+            for m in re.finditer(r"#define\s+(PyArray_\w+)\s*\\\s*\n[^\n]*\\\s*\n\s*PyArray_API\[(\d+)\]\)", txt):
+                tab.setdefault(int(m.group(2)), m.group(1))
+        except (OSError, AnalysisError, IndexError):
+            pass
+        _npy_api["v"] = tab
+    return _npy_api["v"]
+
+
+def _c_text(n):
+    """rendered C expression with the numpy API table entries named"""
+    tab = _npy_api_names()
+    return re.sub(r"\*PyArray_API\[(\d+)\]", lambda m: tab.get(int(m.group(1)), m.group(0)), cfront.render(n))
+
+
+def _c_member_name(n):
+    n = cfront.strip(n)
+    if n.get("kind") == "MemberExpr" and n.get("inner") and cfront.strip(n["inner"][0]).get("kind") == "CXXThisExpr":
+        return n.get("name")
+    return None
+
+
+def _c_members_in(n):
+    return {m for m in (_c_member_name(x) for x in cfront.walk(n) if x.get("kind") == "MemberExpr") if m}
+
+
+def _c_local_defs(decl):
+    """{local: rendered initialiser / assigned value} for locals of a function that are defined exactly once"""
+    defs = {}
+    for x in cfront.walk(decl):
+        if x.get("kind") == "VarDecl" and x.get("name") and x.get("inner"):
+            init = [c for c in x["inner"] if isinstance(c, dict) and c.get("kind") and not c["kind"].endswith("Attr")]
+            defs.setdefault(x["name"], []).append(_c_text(init[-1]) if init else None)
+        elif x.get("kind") == "VarDecl" and x.get("name"):
+            defs.setdefault(x["name"], [])
+        elif x.get("kind") in ("BinaryOperator", "CompoundAssignOperator") and x.get("opcode", "").endswith("=") \
+                and x.get("opcode") not in ("==", "!=", "<=", ">="):
+            l = cfront.strip(x["inner"][0])
+            if l.get("kind") == "DeclRefExpr":
+                nm = l.get("referencedDecl", {}).get("name")
+                defs.setdefault(nm, []).append(_c_text(x["inner"][1]) if x.get("opcode") == "=" else None)
+        elif x.get("kind") == "UnaryOperator" and x.get("opcode") in ("++", "--"):
+            l = cfront.strip(x["inner"][0])
+            if l.get("kind") == "DeclRefExpr":
+                defs.setdefault(l.get("referencedDecl", {}).get("name"), []).append(None)
+    return {k: v[0] for k, v in defs.items() if len(v) == 1 and v[0] is not None}
+
+
+def _c_expand(text, defs):
+    for _ in range(6):
+        new = text
+        for k, v in defs.items():
+            new = re.sub(r"(?<![\w.>])%s\b(?!\s*\()" % re.escape(k), lambda m: "(%s)" % v, new)
+        if new == text or len(new) > 2000:
+            break
+        text = new
+    return text
+
+
+_C_SIZE = re.compile(r"\bPyArray_Size\s*\(|\bPyArray_MultiplyList\s*\(\s*\(*\s*PyArray_(DIMS|SHAPE)\b")
+_C_DIM = re.compile(r"\bPyArray_DIM\s*\([^,()]*(?:\([^()]*\))*[^,()]*,\s*\(*(\w+)\)*\s*\)|\bPyArray_(?:DIMS|SHAPE)\s*\((?:[^()]|\([^()]*\))*\)\s*\)*\s*\[\s*(\w+)\s*\]")
+
+
+def _c_measure(text):
+    """which extent of the input array a C expression is: 'size' (all elements), 'dim0' / 'dim' (one dimension), None (no extent
+    of an array in it), 'unknown'"""
+    size = _C_SIZE.search(text) is not None
+    dims = [m.group(1) or m.group(2) for m in _C_DIM.finditer(text)]
+    if size and dims:
+        return "unknown"
+    if size:
+        return "size"
+    if dims:
+        return "dim0" if all(d == "0" for d in dims) else "dim"
+    if re.search(r"\bPyArray_(DIMS?|SHAPE|NDIM|Size|MultiplyList)\b", text):
+        return "unknown"
+    return None
+
+
+def _py_measure(e, param="data"):
+    """'size' for <chunk>.size, 'dim0' for len(<chunk>) / <chunk>.shape[0] (chunk: the parameter or a view / copy of it)"""
+    kind = None
+    if isinstance(e, ast.Attribute) and e.attr == "size":
+        kind, e = "size", e.value
+    elif isinstance(e, ast.Call) and call_name(e) == "len" and len(e.args) == 1 and isinstance(e.func, ast.Name):
+        kind, e = "dim0", e.args[0]
+    elif isinstance(e, ast.Subscript) and const_value(e.slice) == 0 and isinstance(e.value, ast.Attribute) and e.value.attr == "shape":
+        kind, e = "dim0", e.value.value
+    while isinstance(e, ast.Call) and isinstance(e.func, ast.Attribute) and e.func.attr in ("view", "copy"):
+        e = e.func.value
+    return kind if isinstance(e, ast.Name) and e.id == param else None
+
+
+def _c_reachable(ceff, root, maxdepth=4):
+    """[(name, decl)] of the functions with a body reachable from decl `root` (itself first)"""
+    out, seen, todo = [], set(), [("", root, 0)]
+    while todo:
+        nm, d, depth = todo.pop(0)
+        if id(d) in seen:
+            continue
+        seen.add(id(d))
+        out.append((nm, d))
+        if depth >= maxdepth:
+            continue
+        for c in cfront.calls_in(d):
+            cn = cfront.callee_name(c)
+            if cn in POS_PRIMS + OUT_PRIMS + FMT_PRIMS:
+                continue
+            cd = ceff.lookup(cn)
+            if cd is not None and cfront.has_body(cd):
+                todo.append((cn, cd, depth + 1))
+    return out
+
+
+def r03_8(chk, cfun, ceff, measures):
+    w = cfun["Records::Write"]
+    wline = "esutil/recfile/records.cpp:%s" % w.get("line", 0)
+    funcs = _c_reachable(ceff, w)
+    # members that bound the output: the count of an fwrite to the data stream, the condition of a loop that emits output
+    counts = set()
+    try:
+        for nm, d in funcs:
+            fmtbufs = ceff.fmt_buffers(d)
+            for c in cfront.calls_in(d):
+                if cfront.callee_name(c) == "fwrite":
+                    args = cfront.call_args(c)
+                    if len(args) == 4 and cfront.render(args[3]) not in ("stderr", "stdout"):
+                        counts |= _c_members_in(args[1]) | _c_members_in(args[2])
+            for x in cfront.walk(d):
+                if x.get("kind") in ("ForStmt", "WhileStmt", "DoStmt") and x.get("inner"):
+                    inner = x["inner"]
+                    if x["kind"] == "ForStmt":
+                        cond, body = (inner[2] if len(inner) == 5 else None), inner[-1]
+                    elif x["kind"] == "WhileStmt":
+                        cond, body = inner[-2], inner[-1]
+                    else:
+                        cond, body = inner[-1], inner[0]
+                    if not (isinstance(cond, dict) and cond.get("kind")) or not isinstance(body, dict):
+                        continue
+                    emits = any(any(e.startswith("out") for s in ceff.call_events(c, fmtbufs) for e in s) for c in cfront.calls_in(body))
+                    if emits:
+                        counts |= _c_members_in(cond)
+    except _TooBig:
+        counts = set()
+    # what those members are set to, as an extent of the array handed to Write
+    found = []
+    for nm, d in funcs:
+        defs = _c_local_defs(d)
+        for x in cfront.walk(d):
+            if x.get("kind") == "BinaryOperator" and x.get("opcode") == "=" and _c_member_name(x["inner"][0]) in counts:
+                text = _c_expand(_c_text(x["inner"][1]), defs)
+                m = _c_measure(text)
+                if m is not None:
+                    raw = _c_text(x["inner"][1])
+                    found.append((m, _c_member_name(x["inner"][0]), raw if raw == text else "%s /* = %s */" % (raw, text), x.get("line", 0)))
+    cms = {m for m, _, _, _ in found}
+    cm = next(iter(cms)) if len(cms) == 1 and "unknown" not in cms else None
+    chk.ob("R03.8", "Records::Write::record-count-source", True if cm is not None else None, wline,
+           "the number of records Records::Write emits (members bounding the output: %s) is taken from the input array as %s"
+           % (sorted(counts) or "none found", ["%s = %s [%s]" % (mem, t, m) for m, mem, t, _ in found] or "NOT RECOGNISED"))
+    if cm is None:
+        return
+    cwhere = "esutil/recfile/records.cpp:%s" % found[0][3]
+    words = {"size": "the total element count of the chunk", "dim0": "the leading dimension of the chunk", "dim": "one dimension of the chunk"}
+    seen = set()
+    for label, e, param, where in measures:
+        pm = _py_measure(e, param)
+        key = (label, pm or norm(e))
+        if key in seen:
+            continue
+        seen.add(key)
+        ok = None if pm is None else (pm == cm)
+        chk.ob("R03.8", "row-count-measure::%s" % label, ok, cwhere if ok is False else where,
+               "rows written and rows counted are the same measure of the chunk: Records::Write emits `%s = %s` records (%s), "
+               "%s counts `%s` (%s)" % (found[0][1], found[0][2], words[cm], label, norm(e),
+                                        words.get(pm, "not recognised") if pm else "not recognised"))
+
+
 def _append_truth(st, upto=None):
     """did the path decide the caller's append flag (keys.get('append', ...) / append) and how"""
     return _fact(st, lambda k: k[0] == "truth" and "append" in k[1], upto)
@@ -1565,7 +2001,7 @@ def _chunk_len(x, param="data"):
     return isinstance(e, ast.Name) and e.id == param
 
 
-def r03_7(chk, repo, Rec_write):
+def r03_7(chk, repo, Rec_write, measures):
     """Recfile.write: the handle's row count follows every write (several writes on one handle)"""
     try:
         paths = [st for k, _, st in _PX(repo).run(Rec_write, {}) if k == "return"]
@@ -1581,6 +2017,9 @@ def r03_7(chk, repo, Rec_write):
             terms = [v.left, v.right]
         good = terms is not None and any(norm(a) == "self.nrows" and _chunk_len(b, Rec_write.params[1] if len(Rec_write.params) > 1 else "data")
                                          for a, b in (terms, terms[::-1]))
+        for a, b in ((terms, terms[::-1]) if terms is not None else ()):
+            if norm(a) == "self.nrows":
+                measures.append(("Recfile.write (self.nrows)", b, Rec_write.params[1] if len(Rec_write.params) > 1 else "data", Rec_write.where()))
         w = [e["nev"] for e in _calls(st, "Write")]
         s_ = [e["nev"] for e in st.events if e["kind"] == "store" and e["name"] == "self.nrows"]
         ok = ok and good and bool(w) and bool(s_) and s_[-1] > w[-1]
